@@ -52,7 +52,7 @@ CHECKS = {
  "C08": ("crashpt", "fault_enumeration", "runtime monitoring with ptrace-level fault injection: strace kills the victim before every state-changing syscall of the operation, fails every call once, and makes every directory fsync the first of a persistent flush failure (durable state = what the last good flush left); a checker process reopens the directory with the real code",
          "For the sampled (pre-state, operation) pairs every syscall boundary of the operation was enumerated: after process death before each state-changing call the directory reopened (with and without preload) with the chain before or after, acknowledged data and retained user snapshots unchanged and the counter not decreased; with each call failing once (ENOSPC; thorough also EIO) no operation reported success over a state other than the complete after-state and none left an unopenable directory; the durability lint (directory fsync after every directory-entry change, O_SYNC metadata temp files) passed on every reference trace.",
          "Process death, not power loss; syscall boundaries of the operation's own thread; pre-states and operations are sampled, boundaries within them are exhaustive.", "DESIGN.md 4/C08"),
- "C14": ("restfuzz", "exploration", "runtime monitoring: journalled request fuzzing of both REST routers (single requests, concurrent bursts, two-request lock convoys released in a chosen order) with panic capture, liveness probe and TryLock after every request, child-process death detection; replica stubs that end in the middle of the volume-delete request",
+ "C14": ("restfuzz", "exploration", "runtime monitoring: journalled request fuzzing of both REST routers (single requests, concurrent bursts, two-request lock convoys released in a chosen order) with panic capture, liveness probe and TryLock after every request, child-process death detection; replica stubs that end in the middle of the volume-delete request; every action in every replica mode; twin comparison of REST answers with the engine's verdict",
          "Held on the request matrix (all routes x methods x body classes x id classes x controller/replica states, each pair on a fresh state, plus drifting sequences, bursts of concurrent well-formed requests and lock convoys): no request terminated the process, made a handler panic, failed to return, left the liveness request unanswered or left the controller/replica mutex held.",
          "Handlers run in-process through router.ServeHTTP; outbound calls hit loopback addresses that refuse at once or the scripted replicas' stubs.", "DESIGN.md 4/C14"),
  "C15": ("rpcsim", "exploration", "runtime monitoring: real rpc.Client/Wire/Server against a scripted peer with an independent codec; porcupine linearizability check of end-to-end histories (incl. requests the store refuses); failure reporting through backend/remote's ping monitor on the controller engine in net mode",
